@@ -98,6 +98,17 @@ bursts = [
 ]
 c01 += bursts
 c02 += bursts
+# a source pchannel pack split into the packs of two collections whose position OBJECTS are shared (as the real dispatcher
+# hands them over); both are handled in the final free-running drain, then read: what was emitted first must not have been
+# relabelled by the handling of the second
+def split(k, b, e, kinds):
+    return {"op": "feedsplit", "packs": [{"s": sv, "pack": {"id": "sa#%d" % k, "b": b, "e": e, "msgs": [m(kk, b + 1 + i) for i, kk in enumerate(kinds)]}}
+                                         for sv in ("sa_101v0", "sa_102v0")]}
+for i, order in enumerate((("c1", "c2", "c3"), ("c2", "c1", "c3"))):
+    c02.append({"plan": "d-split-shared-pos-%d" % i, "params": {"tt": 1, "catalog": CAT_X}, "steps": _starts(order) + [split(1, 10, 19, ["ins"])]})
+    c02.append({"plan": "d-split-shared-pos-run-%d" % i, "params": {"tt": 1, "catalog": CAT_X},
+                "steps": _starts(order) + [split(1, 10, 19, ["ins", "del"]), run("sa_101v0"), run("sa_102v0"), run("fwd:sa_101v0"), run("fwd:sa_102v0"),
+                                           split(2, 20, 29, ["ins"])]})
 
 for name, ps in (("C01", c01), ("C02", c02), ("C03", c03)):
     with open(os.path.join(os.path.dirname(os.path.abspath(__file__)), name + ".jsonl"), "w") as f:
